@@ -85,7 +85,8 @@ class P(Prop):
                 ["C01_PolyN_empty", "C01_PolyN_exact", "C01_PolyN_bound"] +
                 ["C01_Log%d_%s" % (k, w) for k in range(9) for w in ("value", "float")] +
                 ["C01_log_propagation", "C01_example"])
-    KERNELS = ["Poly%d::evaluate" % k for k in range(9)] + ["Log<Poly%d>::evaluate" % k for k in range(9)]
+    KERNELS = (["Poly%d::evaluate" % k for k in range(9)] + ["Log<Poly%d>::evaluate" % k for k in range(9)] +
+               ["IntOfLogPoly4::evaluate", "IntOfLog<Poly2>::evaluate"])
     RULE = ("Poly0..8, Log<Poly0..8> evaluate kernels (regenerated) and PolyN (lengths 0..12, thorough ..64) run bit-exactly "
             "model vs crate; coefficient styles: small integers (exactness), log-uniform magnitudes 2^+-40, cancelling "
             "(p(x)~0), sparse, small reals; arguments {+-0,+-1,tiny,huge,fractional,near 1}. The implementation result is also "
@@ -106,6 +107,12 @@ class P(Prop):
                 style, cs = coeffs(rng, k + 1)
                 v = rng.choice([rng.uniform(0.01, 20), rng.f64_loguniform(-30, 30, signed=False), 1.0, 2.718281828459045, 5e-324, 1e-310,
                                 1.0 + 2.0 ** -52, 1.0 - 2.0 ** -53, 1.0 + 2.0 ** -40])
+                if rng.random() < 0.4:
+                    # evaluation must be a function of (coefficients, argument) only: other forms evaluated at the same argument
+                    # just before (they share ln/exp code) must not influence the result
+                    other = rng.choice(["IntOfLogPoly4::evaluate", "IntOfLog<Poly2>::evaluate"])
+                    oargs = [rng.uniform(-3, 3) for _ in range(G.arity(other.split("::")[0]))]
+                    out.append(K.kernel_case(other, oargs + [v], cls="interleave", libm=True))
                 out.append(K.kernel_case("Log<Poly%d>::evaluate" % k, cs + [v], cls="log/" + style, libm=True))
         maxlen = 12 if tier == "quick" else 64
         for _ in range(3 * per):
@@ -157,6 +164,8 @@ class P(Prop):
             return None
         ty, meth = K.split_kernel(case["name"])
         args = case["args"]
+        if case["meta"].get("class") == "interleave":
+            return None
         if ty.startswith("Log<"):
             v = C.fl(args[-1])
             if not (v > 0) or v == float("inf"):
@@ -169,6 +178,8 @@ class P(Prop):
         return self.check_value(args[:-1], args[-1], h["r"][0], "%s at x=%r" % (ty, C.fl(args[-1])))
 
     def nontrivial_key(self, case, h):
+        if case.get("meta", {}).get("class") == "interleave":
+            return None
         if case["op"] == "k":
             if len(case["args"]) < 3 or C.fl(case["args"][-1]) in (0.0, 1.0):
                 return None
